@@ -10,7 +10,7 @@ from geolib import Gen, Obj, call_impl, stack
 from proto import ET, proj_close, run_driver
 
 ID = "C01"
-LEAN_FILES = ["Geo/Props/C01.lean", "Geo/Props/C01b.lean"]
+LEAN_FILES = ["Geo/Props/C01.lean", "Geo/Props/C01b.lean", "Geo/Props/C01c.lean"]
 RULE = ("12 join/meet scenarios (2 pts 2D/3D, 3 pts, line+pt both orders, 2 coplanar 3D lines, 2 lines 2D, 2/3 planes, "
         "line+plane both orders) x lattice / dyadic / Gaussian coordinates, finite and at infinity, single and collections "
         "(1-2 axes, broadcasting); every permutation of the arguments; round trips meet(join(p,q),join(p,r))=p and dual; "
